@@ -153,7 +153,11 @@ func (w *World) CheckConfigMerge(o *Obs) []Violation {
 	// a prefix-bound struct field sees the same merge
 	if len(merges) == 1 {
 		m := merges[0]
+		created := w.Created(o)
 		for _, i := range p.Instances {
+			if !created[i.ID] {
+				continue // a lazy component nothing needed: its fields were never bound
+			}
 			for _, cf := range w.Types[i.Type].Config {
 				if cf.Menu != "prefixStruct" {
 					continue
@@ -196,8 +200,17 @@ type confExpect struct {
 func evalConf(cf *sdl.Conf, cfg map[string]string) confExpect {
 	var e confExpect
 	zero := "0"
-	if cf.GoType == "string" {
+	switch cf.GoType {
+	case "string":
 		zero = ""
+	case "ints":
+		zero = "[]"
+	case "intp":
+		zero = "<nil>"
+	case "dur":
+		zero = "0s"
+	case "strmap":
+		zero = "map[]"
 	}
 	val := ""
 	switch cf.Menu {
